@@ -5,6 +5,7 @@ import DispatchVerif.Core.Base32P
 import DispatchVerif.Core.Base32HexP
 import DispatchVerif.Core.Utf8F
 import DispatchVerif.Core.Utf16P
+import DispatchVerif.Core.QueueP
 /-! `dvdriver`: line-protocol driver over the Lean models — the same definitions the theorems are about.
     One operation per line in, one canonical result per line out; the C harnesses answer the same lines with
     the real library and the check diffs the two streams. -/
@@ -75,6 +76,15 @@ def transform (fi fo spec : String) : String :=
       | .oob => "OOB"
       | .bytes t2 => toHex t2.flatten
 
+def parseParents (s : String) : List (Option Nat) :=
+  (s.splitOn ",").map fun t => if t.startsWith "-" then none else t.toNat?
+
+def parseVals (s : String) : Nat → Nat → Nat :=
+  let es := (s.splitOn ";").filterMap fun t => match t.splitOn ":" with
+    | [a, b, v] => some (a.toNat!, b.toNat!, v.toNat!)
+    | _ => none
+  fun q k => ((es.find? fun e => e.1 = q ∧ e.2.1 = k).map (·.2.2)).getD 0
+
 def handle (line : String) : String :=
   match line.trimAscii.toString.splitOn " " with
   | ["T", inval, delta, nu, nm, nw] =>
@@ -94,6 +104,26 @@ def handle (line : String) : String :=
     | some w, some a, some b, some c => toString (TimeP.timeout w a b c)
     | _, _, _, _ => "bad-op"
   | ["X2", fi, fo, spec] => transform fi fo spec
+  | ["AQ", idx, q, r] => toString (AttrP.withQos idx.toNat! q.toNat! r.toNat!)
+  | ["AI", idx] => toString (AttrP.withInactive idx.toNat!)
+  | ["AO", idx, b] => toString (AttrP.withOvercommit idx.toNat! (b = "1"))
+  | ["AF", idx, f] => toString (AttrP.withAutorelease idx.toNat! f.toNat!)
+  | ["QC", idx] =>
+    let r := QueueP.created idx.toNat!
+    s!"{r.qosClass} {r.relpri} {if r.concurrent then 1 else 0} {if r.inactive then 1 else 0}"
+  | ["GQ", id, fl] =>
+    match id.toInt?, fl.toNat? with
+    | some i, some f =>
+      if f ≠ 0 ∧ f ≠ 2 then "NULL" else (QueueP.globalQueue i (f = 2)).getD "NULL"
+    | _, _ => "bad-op"
+  | "SQ" :: parents :: _conc :: vals :: q :: k :: _path :: _ =>
+    toString (QueueP.getSpecific (parseParents parents) (parseVals vals) q.toNat! k.toNat!)
+  | "SA" :: parents :: _conc :: q :: a :: neg :: path :: rest =>
+    let ctx : Option Nat := match rest with | [c] => c.toNat? | _ => none
+    -- only the synchronous paths (1 sync, 2 barrier_sync, 3 async_and_wait) carry the submitter's frames
+    let ctx' := if path = "1" ∨ path = "2" ∨ path = "3" then ctx else none
+    let acc := QueueP.assertAccepts (parseParents parents) q.toNat! ctx' a.toNat!
+    if (neg = "1") = acc then "crash" else "ok"
   | _ => "bad-op"
 
 partial def loop (h : IO.FS.Stream) (out : IO.FS.Stream) : IO Unit := do
